@@ -14,6 +14,7 @@ import (
 	"os"
 	"os/exec"
 	"path/filepath"
+	"runtime/debug"
 	"sort"
 	"strings"
 	"time"
@@ -120,6 +121,8 @@ func (r *CheckRun) Run() int {
 		r.writeEvidence()
 		return 2
 	}
+	// the SSA program is a large, long-lived heap: collect less often while interpreting
+	debug.SetGCPercent(400)
 	r.logf("[%s] loaded %s in %.1fs (ssa build %.1fs)", r.spec.Property, r.spec.Package, r.prog.loadTime.Seconds(), r.prog.buildTime.Seconds())
 
 	var entries []*EntrySpec
